@@ -782,7 +782,7 @@ func VerifC19Limits() {
 		}
 		if L <= nameMax {
 			// the only admissible refusals: the name exists already, or the disk / inode table is full
-			verifrt.Assert(st == nfstypes.NFS3_OK || st == nfstypes.NFS3ERR_EXIST || (!nofail && st == nfstypes.NFS3ERR_NOSPC), "name-up-to-name_max-accepted")
+			verifrt.Assert(st == nfstypes.NFS3_OK || st == nfstypes.NFS3ERR_EXIST || (!nofail && st == nfstypes.NFS3ERR_NOSPC), "mon:name-up-to-name_max-accepted")
 			if st == nfstypes.NFS3_OK {
 				verifrt.Assert(m.appends == 1 && m.durable, "mon:created-durably")
 				verifrt.Cover("name-ok")
@@ -831,7 +831,7 @@ func VerifC19Limits() {
 			}
 		}
 		if off+n >= off && off+n <= maxfs {
-			verifrt.Assert(r.Status == nfstypes.NFS3_OK || !nofail, "write-up-to-maxfilesize-accepted")
+			verifrt.Assert(r.Status == nfstypes.NFS3_OK || !nofail, "mon:write-up-to-maxfilesize-accepted")
 			if r.Status == nfstypes.NFS3_OK {
 				verifrt.Assert(uint64(r.Resok.Count) == n, "write-not-truncated")
 				verifrt.Cover("write-ok")
@@ -847,11 +847,16 @@ func VerifC19Limits() {
 		w.boundInode(x, true)
 		over := verifrt.Choose("over", 1, 0)
 		cnt := wtmax + over
+		data := make([]byte, cnt)
 		verifrt.Mark(vMarkOpBegin)
-		// no data supplied: the count guard is what is examined here (count > len(data) is refused later)
-		r := w.nfs.NFSPROC3_WRITE(nfstypes.WRITE3args{File: h, Offset: 0, Count: nfstypes.Count3(cnt), Stable: nfstypes.FILE_SYNC, Data: nil})
+		r := w.nfs.NFSPROC3_WRITE(nfstypes.WRITE3args{File: h, Offset: 0, Count: nfstypes.Count3(cnt), Stable: nfstypes.FILE_SYNC, Data: data})
 		m := vMonitor()
-		verifrt.Assert(r.Status != nfstypes.NFS3_OK && m.appends == 0, "oversized-or-dataless-write-refused-without-effect")
+		if over == 1 {
+			verifrt.Assert(r.Status != nfstypes.NFS3_OK && m.appends == 0, "write-above-wtmax-refused-without-effect")
+		} else {
+			// a transfer of exactly the announced maximum must not be refused as too large
+			verifrt.AssertK(r.Status != nfstypes.NFS3ERR_INVAL, "wtmax-count-accepted-by-guard", "KF-wtmax", true)
+		}
 		verifrt.Assert(wtmax <= 511*4096 && wtmax%4096 == 0, "wtmax-is-a-whole-number-of-blocks-within-the-journal")
 		verifrt.Cover("wtmax")
 	}
